@@ -57,7 +57,7 @@ fn enc_strategy(max_pages: usize) -> BoxedStrategy<EncCase> {
                 Just(ekb),
                 keyspec(aimed(capc, max_pages)),
                 keyspec(aimed(cape, max_pages)),
-                prop_oneof![4 => Just(0u8), 2 => Just(1u8), 2 => Just(2u8), 1 => Just(3u8), 1 => Just(4u8)],
+                prop_oneof![4 => Just(0u8), 2 => Just(1u8), 2 => Just(2u8), 1 => Just(3u8), 1 => Just(4u8), 1 => Just(5u8)],
                 prop_oneof![2 => Just(fit), 2 => Just(fit.saturating_add(1)), 1 => Just(fit - 1), 1 => 1u8..=255],
                 1u8..=6,
                 any::<bool>(),
@@ -241,7 +241,7 @@ fn main() {
     ck.run(
         Section::enumerate(
             "encoding-page-boundaries",
-            "EncodingBuilder: page sizes 1..=4 KiB x (1..=3 pages x {-1,0,+1} entries) for CKey pages (1 ekey each) and EKey pages, 3 key styles; plus one entry of fit / fit+1 encoding keys per page size",
+            "EncodingBuilder: page sizes 1..=4 KiB x (1..=3 pages x {-1,0,+1} entries) for CKey pages (1 ekey each) and EKey pages, 3 key styles; a first CKey page filled exactly to its last byte followed by 0/1/cap/cap+1 entries; one entry of fit-1 / fit / fit+1 encoding keys per page size",
             move || {
                 let mut v: Vec<EncCase> = Vec::new();
                 for kb in 1u16..=4 {
@@ -265,6 +265,10 @@ fn main() {
                                 });
                             }
                         }
+                    }
+                    for n in [8usize, 9, 8 + capc, 9 + capc] {
+                        let s = splitmix64(seed ^ 0xf011 ^ (kb as u64) << 16 ^ n as u64);
+                        v.push(EncCase { ckeys: ks(n, (n % 3) as u8, n % 2 == 0, s), ekeys: ks(5, 0, false, s ^ 1), ckey_page_kb: kb, ekey_page_kb: 1, multi: 5, big_k: 1, n_especs: 2, trailing: false, blte: false, seed: s ^ 2 });
                     }
                     let fit = ((kb as usize * 1024 - 22) / 16).min(255);
                     for k in [fit - 1, fit, fit + 1] {
